@@ -28,6 +28,8 @@ for pid, d in props.items():
         earlier.append('(%d) %s' % (len(earlier) + 1, json.load(open(m))['change']))
     prop = "Property %s: %s\n\nStatement: %s\n\nQuantified over: %s\n" % (d['id'], d['title'], d['statement'], d['quantifier']['text'])
     kind = "You are free to choose any place in the library that the property depends on (read the code paths behind every operator / function the statement names, and the helpers they share)."
+    if len(sys.argv) > 3 and sys.argv[3] == 'adversarial':
+        kind += " Assume the verification suite is thorough in the obvious ways: it compares every operator with an independent reference on hundreds of thousands of random inputs (all ranks, types, attribute combinations, special values), runs generated graphs and the sample models repeatedly on one loaded model and from many goroutines under the race detector, fingerprints caller tensors and weights before and after every call, re-uses operand tensors and operator instances across calls, and fuzzes the loaders. Look for what such a suite could still overlook: rare value- or shape-coincidences, interactions of two features that are each tested alone, boundaries of integer arithmetic, behaviour that depends on the ORDER of things (map iteration, attribute order, node order, input declaration order), error paths and partial failures, and state that only differs after an unusual sequence."
     t = tmpl.replace('{WT}', wt).replace('{OUT}', out).replace('{PROPERTY}', prop).replace('{KIND}', kind)
     t = t.replace('Two earlier mutants', 'Earlier mutants').replace('{AVOID}', '; '.join(earlier))
     open(out + '/PROMPT.txt', 'w').write(t)
